@@ -74,11 +74,12 @@ func NewClient(krb5Cl *client.Client, httpCl *http.Client, spn string) *Client {
 
 // Do is the SPNEGO enabled HTTP client's equivalent of the http.Client's Do method.
 func (c *Client) Do(req *http.Request) (resp *http.Response, err error) {
-	return c.do(req, 0)
+	return c.do(req, 0, false)
 }
 
-// do performs the request. redirects counts the redirects followed so far for the caller's request.
-func (c *Client) do(req *http.Request, redirects int) (resp *http.Response, err error) {
+// do performs the request. redirects counts the redirects followed so far for the caller's request and authenticated
+// records whether a token has already been sent to the current target.
+func (c *Client) do(req *http.Request, redirects int, authenticated bool) (resp *http.Response, err error) {
 	var body []byte
 	if req.Body != nil {
 		// Read the whole body up front so that it can be sent again in full if the server challenges or
@@ -104,13 +105,13 @@ func (c *Client) do(req *http.Request, redirects int) (resp *http.Response, err 
 					// Refresh the body reader so the body can be sent again
 					e.reqTarget.Body = io.NopCloser(bytes.NewReader(body))
 				}
-				return c.do(e.reqTarget, redirects)
+				return c.do(e.reqTarget, redirects, false)
 			}
 		}
 		return resp, err
 	}
 	if respUnauthorizedNegotiate(resp) {
-		if req.Header.Get(HTTPHeaderAuthRequest) != "" {
+		if authenticated {
 			// The request already carried a token and the server challenges again: authenticating once
 			// more cannot help, hand the response to the caller rather than retrying for ever.
 			return resp, err
@@ -125,7 +126,7 @@ func (c *Client) do(req *http.Request, redirects int) (resp *http.Response, err 
 		}
 		io.Copy(io.Discard, resp.Body)
 		resp.Body.Close()
-		return c.do(req, redirects)
+		return c.do(req, redirects, true)
 	}
 	return resp, err
 }
